@@ -179,14 +179,15 @@ def replay(ctx, data):
 
 
 LEVEL_TEXT = ('Machine-checked proof (Coq 8.16.1) over an executable model of the SQLite provider / Pool / SessionCache / db_session-exit code: for every session shape '
-              '(read-only, optimistic write, immediate, serializable, ddl), every body (any operation list, caught exceptions, mid-session commit/rollback) and every fault oracle '
-              '(any set of DB-API calls raising), the session terminates, the provider lock is free, no cache is registered, the connection is pooled after a successful rollback or '
-              'closed exactly once, and no protocol violation occurs (C19_released); for every schedule of any number of threads the lock is held iff exactly one cache is in an '
-              '(immediate) transaction (C19_lock_inv); following sessions never block and the lock holder\'s exit frees the lock (C19_progress, C19_progress_threads). The model is '
-              'tied to /repo on every run by trace/end-state correspondence under exhaustive single-fault injection (plus pairs, triples, thread schedules).')
-LEVEL_NOTE = ('Not proved: that a following session *succeeds* - it does not: two recorded findings (a connection whose initialisation failed stays in the pool without its PRAGMAs; '
-              'in a thread that never connected before, every later session then fails with AttributeError on pool.pid); the refutation witnesses are in Findings/C19.v, the positive '
-              'complement is checked by the search only. Trusted: the hand-written model (correspondence is differential testing), threading.Lock, per-thread locals, atomic-step granularity of the thread model.')
+              '(read-only, optimistic write, immediate, serializable, ddl), every body (any operation list incl. raw writes, many-to-many-only flushes, locking lookups, caught exceptions, '
+              'repeated mid-session commit/rollback) and every fault oracle (any set of DB-API calls raising), the session terminates, the provider lock is free, no cache is registered, '
+              'the connection is pooled after a successful rollback or closed exactly once, and no protocol violation (double release, stolen lock) occurs (C19_released); for every schedule '
+              'of any number of threads the lock is held iff exactly one cache is in an (immediate) transaction (C19_lock_inv); following sessions never block, the holder\'s exit frees the '
+              'lock (C19_progress, C19_progress_threads); after ANY faulty sessions a session whose own calls do not fail succeeds (C19_following_session_succeeds); Database.disconnect() '
+              'closes every connection exactly once (C19_disconnect). Tied to /repo on every run by trace/end-state correspondence under exhaustive single-fault injection (plus pairs, '
+              'triples, real "database is locked" COMMIT/BEGIN failures caused by a second connection and by a second PROCESS, thread schedules).')
+LEVEL_NOTE = ('No open findings (three were fixed by /repo 54964b5; their oracles remain). Trusted: the hand-written model (correspondence is differential testing), threading.Lock, '
+              'per-thread locals, atomic-step granularity of the thread model; connections of threads that simply exit are left to the garbage collector (outside the statement).')
 TECHNIQUE = ('Coq state-machine model with a fault oracle; invariant proved by exhaustive symbolic execution of the provider-level blocks and Hoare-style composition '
              '(induction over pending writes, operation lists, session lists, schedules); vm_compute correspondence of driver-call traces and end states against real Pony with faults '
              'injected through a sqlite3 proxy; deterministic thread scheduler; exhaustive single-fault search with a property oracle')
